@@ -62,11 +62,17 @@ pub struct RecCond<S> {
     pub weird: bool,
     /// two answers in three are zeros, of the sign opposite to the coordinate's current value if that is a zero
     pub zeros: bool,
+    /// panic (once) when the call counter reaches this value
+    pub panic_at: Option<u64>,
     pub _p: std::marker::PhantomData<S>,
 }
 impl<S: GElem> Conditional<S> for RecCond<S> {
     fn sample(&mut self, index: usize, given: &[S]) -> S {
         self.counter += 1;
+        if self.panic_at == Some(self.counter) {
+            self.panic_at = None;
+            panic!("conditional failed (injected)");
+        }
         let mut v = S::unique(self.counter, self.weird);
         if self.zeros && (self.counter.wrapping_mul(0x9e37_79b9_7f4a_7c15) >> 40) % 3 != 0 {
             if let Some(z) = given.get(index).and_then(|p| S::other_zero(*p)) {
@@ -161,6 +167,7 @@ fn case<S: GElem>(ctx: &Ctx, rep: &mut Report, case: u64, g: &mut Sm64) {
         counter: 0,
         weird,
         zeros,
+        panic_at: None,
         _p: std::marker::PhantomData,
     };
     let sig = format!("GibbsMarkovChain::step S={}", S::NAME);
@@ -218,6 +225,43 @@ fn case<S: GElem>(ctx: &Ctx, rep: &mut Report, case: u64, g: &mut Sm64) {
                         rep.count("chains_checked_after_state_replacement");
                     } else {
                         return;
+                    }
+                }
+            }
+        }
+        // a conditional that fails in the middle of a sweep (caught by the caller): the next step is
+        // again a complete sweep over the state as the failed one left it
+        let dn = chain.current_state.len();
+        if dn >= 2 {
+            let k = g.range(1, dn - 1) as u64; // the failing call refreshes coordinate k >= 1 (if sweeps run in index order)
+            chain.target.panic_at = Some(chain.target.counter + 1 + k);
+            let failed = guard(|| {
+                chain.step();
+            });
+            if failed.is_ok() {
+                rep.inconclusive("injected conditional failure did not surface as a panic");
+            } else {
+                chain.target.panic_at = None;
+                chain.target.calls.clear();
+                let state_now = bits_vec(&chain.current_state);
+                let mut after3 = vec![];
+                let r = guard(|| {
+                    for _ in 0..2 {
+                        after3.push(bits_vec(&chain.step().clone()));
+                    }
+                });
+                rep.evals(2);
+                match r {
+                    Err(m) => {
+                        rep.violation(&format!("{sig} panic in the step after a caught failure of the conditional"), mon, case, json!({"d": dn, "panic": m}));
+                        return;
+                    }
+                    Ok(()) => {
+                        if check_history(rep, &format!("{sig} (after a caught failure of the conditional mid-sweep)"), mon, case, dn, &state_now, &chain.target.calls, &after3, 2) {
+                            rep.count("chains_checked_after_a_caught_conditional_failure");
+                        } else {
+                            return;
+                        }
                     }
                 }
             }
